@@ -3,7 +3,7 @@
 A script (per-connection byte streams cut into complete units, executed in a fixed global order of unit completions) is
 run once as the reference (one whole unit per wake-up, nothing coalesced, no scribbling) and then under K variants; the
 decoded output of every connection must be identical (daemon-generated routed ids canonicalised)."""
-import json, random, re, struct, time
+import json, random, re, struct, sys, time
 
 from . import build, hostile, wire
 from .runner import Result, scenario
@@ -194,10 +194,11 @@ def execute(binary, conns, steps, policy, rng, timeout=60):
             if policy.get("spurious") and rng.random() < policy["spurious"]:
                 sim.poll(order=[fds[c]], spurious=fds[c])
         pump()
+        # tear down one connection after the other: who still sees whose removes is then a matter of the script, not of kernel choice
         for fd in fds:
             sim.eof(fd)
-        sim.settle()
-        pump()
+            sim.settle()
+            pump()
         txt = json.dumps(outputs)
         txt = CANON.sub(lambda m: seen.setdefault(m.group(0), "<routed-%d>" % len(seen)), txt)
         out["outputs"] = json.loads(txt)
@@ -277,3 +278,60 @@ def segdiff(case, res):
                     break
             return
         res.stats["variants_identical"] += 1
+
+
+@scenario("realdiff")
+def realdiff(case, res):
+    """fidelity anchor: the simulated reference execution of a script vs the same script on the real kernel"""
+    import os, subprocess, tempfile
+    cfgname = case.get("config", "default")
+    binary = build.build(config=cfgname, lane="asan")
+    real = build.build(kind="cjetd", config=cfgname, lane="asan", wraps=[], main_rename=False, name="cjetd")
+    cfg = build.cfg_of(cfgname)
+    rng = random.Random(case["seed"])
+    conns, steps = gen_script(rng, int(cfg["CONFIG_MAX_MESSAGE_SIZE"]))
+    res.sample = {"conns": conns, "nsteps": len(steps)}
+    try:
+        ref = execute(binary, conns, steps, dict(name="reference", chunks="whole"), random.Random(1))
+    except Hang as e:
+        res.inconclusive = "hang in simulated run: %s" % e
+        return
+    if ref["crash"]:
+        res.viol.append(("crash/" + str(ref["crash"]), ref["detail"]))
+        return
+    fd, path = tempfile.mkstemp(prefix="cjv-real-", suffix=".json")
+    try:
+        with os.fdopen(fd, "w") as fh:
+            json.dump({"conns": conns, "steps": [dict(c=s["c"], unit=s["unit"].hex()) if "unit" in s else {k: v for k, v in s.items() if not k.startswith("_")} for s in steps]}, fh)
+        try:
+            r = subprocess.run(["unshare", "-n", sys.executable, "-m", "cjv.realk", real, path], cwd=build.VERIF, stdout=subprocess.PIPE, stderr=subprocess.PIPE, timeout=120)
+        except subprocess.TimeoutExpired:
+            res.inconclusive = "real-kernel run exceeded its watchdog"
+            return
+    finally:
+        if os.path.exists(path):
+            os.unlink(path)
+    try:
+        out = json.loads(r.stdout.decode())
+    except ValueError:
+        res.inconclusive = "real-kernel driver failed: %s" % r.stderr.decode()[-400:]
+        return
+    if "inconclusive" in out:
+        res.inconclusive = out["inconclusive"]
+        return
+    res.stats["real_kernel_runs"] += 1
+    res.stats["real_kernel_messages"] += sum(len(o) for o in out["outputs"])
+    if out.get("exit") not in (0,):
+        k = crash_key(out.get("exit") if isinstance(out.get("exit"), int) else 1, out.get("stderr", ""))
+        res.viol.append(("real-kernel/daemon-exit:%s" % (k or out.get("exit")), out.get("stderr", "")[:2000]))
+        return
+    res.sigs.add(("real", tuple(sorted(set(conns))), min(len(steps) // 8, 5)))
+    if out["outputs"] != ref["outputs"]:
+        for ci, (a, b) in enumerate(zip(ref["outputs"], out["outputs"])):
+            if a != b:
+                k = next((i for i, (x, y) in enumerate(zip(a, b)) if x != y), min(len(a), len(b)))
+                res.viol.append(("real-kernel/simulated-and-real-kernel-runs-differ", "connection %d (%s), message %d:\n simulated: %s\n real:      %s" %
+                                 (ci, conns[ci], k, json.dumps(a[k:k + 2])[:300], json.dumps(b[k:k + 2])[:300])))
+                break
+    else:
+        res.stats["traces_validated_against_real_kernel"] += 1
